@@ -74,7 +74,7 @@ impl Parser for GoModParser {
 
             // Parse require spec
             if in_require_block {
-                if let Some(caps) = self.require_spec_re.captures(line) {
+                if let Some(caps) = self.require_spec_re.captures(line.trim_end()) {
                     let module_path = caps.get(1).unwrap().as_str();
                     let version_match = caps.get(2).unwrap();
                     let version = version_match.as_str();
